@@ -177,6 +177,7 @@ type hostSrv struct {
 	headForbidden bool        // HEAD -> 403 (forces the GET fallback of the size probe)
 	evil401       atomic.Bool // CDN answers 401 with its own token realm
 	singleOnly    bool        // multi-range -> 400 (forces single range mode)
+	hopTo         string      // nested redirection: this CDN redirects once more, to that CDN host
 
 	// auth
 	noPost bool // POST /token -> 404 (forces the GET form with basic auth)
@@ -324,6 +325,9 @@ func (w *world) handle(req *http.Request, body string) *http.Response {
 		}
 		if req.URL.Query().Get("tok") != strconv.FormatInt(w.gen.Load(), 10) {
 			return resp(req, 403, nil, []byte("expired"))
+		}
+		if h.hopTo != "" && req.URL.Query().Get("hop") == "" {
+			return resp(req, 302, http.Header{"Location": {fmt.Sprintf("https://%s%s?tok=%s&hop=1", h.hopTo, req.URL.Path, req.URL.Query().Get("tok"))}}, nil)
 		}
 		if req.Method == "HEAD" && h.headForbidden {
 			return resp(req, 403, nil, nil)
